@@ -17,10 +17,10 @@ def read(p):
 
 EXPR = [
     (r"^self\.env\.get_orderbook\(\)\.get_trade_vol\(\)$", "TradeVol"),
-    (r"^data\.bid_price$", "BidPrice"), (r"^data\.ask_price$", "AskPrice"),
-    (r"^data\.bid_vol$", "BidVol"), (r"^data\.ask_vol$", "AskVol"),
-    (r"^data\.bid_price_levels\[(\w+)\]\.0$", "BidLvlVol:%s"), (r"^data\.bid_price_levels\[(\w+)\]\.1$", "BidLvlCnt:%s"),
-    (r"^data\.ask_price_levels\[(\w+)\]\.0$", "AskLvlVol:%s"), (r"^data\.ask_price_levels\[(\w+)\]\.1$", "AskLvlCnt:%s"),
+    (r"^[A-Za-z_]\w*\.bid_price$", "BidPrice"), (r"^[A-Za-z_]\w*\.ask_price$", "AskPrice"),
+    (r"^[A-Za-z_]\w*\.bid_vol$", "BidVol"), (r"^[A-Za-z_]\w*\.ask_vol$", "AskVol"),
+    (r"^[A-Za-z_]\w*\.bid_price_levels\[(\w+)\]\.0$", "BidLvlVol:%s"), (r"^[A-Za-z_]\w*\.bid_price_levels\[(\w+)\]\.1$", "BidLvlCnt:%s"),
+    (r"^[A-Za-z_]\w*\.ask_price_levels\[(\w+)\]\.0$", "AskLvlVol:%s"), (r"^[A-Za-z_]\w*\.ask_price_levels\[(\w+)\]\.1$", "AskLvlCnt:%s"),
 ]
 DOC = [
     (r"^trade volume", "TradeVol"), (r"^bid touch price", "BidPrice"), (r"^ask touch price", "AskPrice"),
@@ -148,10 +148,10 @@ def market_data_code(body):
     for m in re.finditer(r'format!\("(\w+)_\{i\}"\)\s*,\s*(data\.[\w.\[\]]+)\.to_pyarray', body):
         for i in range(10):
             pairs.append(("%s_%d" % (m.group(1), i), m.group(2).replace("[i]", "[%d]" % i)))
-    SER = [(r"^data\.prices\.0", "BidPrice"), (r"^data\.prices\.1", "AskPrice"), (r"^data\.volumes\.0", "BidVol"), (r"^data\.volumes\.1", "AskVol"),
+    SER = [(r"^[A-Za-z_]\w*\.prices\.0", "BidPrice"), (r"^[A-Za-z_]\w*\.prices\.1", "AskPrice"), (r"^[A-Za-z_]\w*\.volumes\.0", "BidVol"), (r"^[A-Za-z_]\w*\.volumes\.1", "AskVol"),
            (r"^trade_volumes", "TradeVol"), (r"^self\.get_trade_volumes", "TradeVol"),
-           (r"^data\.volumes_at_levels\.0\[(\d+)\]", "BidLvlVol:%s"), (r"^data\.volumes_at_levels\.1\[(\d+)\]", "AskLvlVol:%s"),
-           (r"^data\.orders_at_levels\.0\[(\d+)\]", "BidLvlCnt:%s"), (r"^data\.orders_at_levels\.1\[(\d+)\]", "AskLvlCnt:%s")]
+           (r"^[A-Za-z_]\w*\.volumes_at_levels\.0\[(\d+)\]", "BidLvlVol:%s"), (r"^[A-Za-z_]\w*\.volumes_at_levels\.1\[(\d+)\]", "AskLvlVol:%s"),
+           (r"^[A-Za-z_]\w*\.orders_at_levels\.0\[(\d+)\]", "BidLvlCnt:%s"), (r"^[A-Za-z_]\w*\.orders_at_levels\.1\[(\d+)\]", "AskLvlCnt:%s")]
     out = []
     for k, e in pairs:
         f = "?" + e
